@@ -62,6 +62,9 @@ type Graph struct {
 
 	flagsOnce sync.Once
 	flags     bool
+	untOnce   sync.Once
+	unt       map[types.Object]bool
+	flagVars  map[types.Object]bool // the constant-valued locals some branch tests
 }
 
 // Graph returns the control-flow graph of the function body.
@@ -325,7 +328,10 @@ func (g *Graph) usesFlags() bool {
 					}
 					if len(vals) >= 2 {
 						g.flags = true
-						return
+						if g.flagVars == nil {
+							g.flagVars = map[types.Object]bool{}
+						}
+						g.flagVars[obj] = true
 					}
 				}
 			}
